@@ -8,3 +8,4 @@ pub mod arena_eng;
 
 #[global_allocator]
 static GLOBAL: ledger::Ledger = ledger::Ledger;
+pub mod multi_eng;
